@@ -225,6 +225,11 @@ p_harness!(c01_p_verbose_string_le, 20, Shape { storage: false, htyp: H_EXT_LE, 
 p_harness!(c01_p_nettrace_le, 20, Shape { storage: false, htyp: H_EXT_LE, msin: M_NW_CAN_V, ids: IDS_FULL, payload: P::NetTrace(&[2]) }, 2);
 p_harness!(c01_p_nettrace_be, 20, Shape { storage: false, htyp: H_EXT_BE, msin: M_NW_CAN_V, ids: IDS_FULL, payload: P::NetTrace(&[3]) }, 2);
 
+// a NON-verbose payload in a message whose type is network trace stays a non-verbose payload (the payload kind follows
+// the verbose bit; only verbose network-trace messages carry slices)
+pub const M_NW_CAN_NV: u8 = 0x24; // non-verbose, network trace, CAN
+p_harness!(c01_p_nonverbose_nwtrace_type, 20, Shape { storage: false, htyp: H_EXT_BE, msin: M_NW_CAN_NV, ids: IDS_FULL, payload: P::NonVerbose(3) }, 2);
+
 // verbose-kind payloads with zero arguments / slices keep their kind
 p_harness!(c01_p_nettrace_empty, 20, Shape { storage: false, htyp: H_EXT_BE, msin: M_NW_CAN_V, ids: IDS_FULL, payload: P::NetTrace(&[]) }, 2);
 p_harness!(c01_p_verbose_empty, 20, Shape { storage: false, htyp: H_EXT_LE, msin: M_LOG_INFO_V, ids: IDS_FULL, payload: P::Verbose(&[]) }, 2);
@@ -298,3 +303,4 @@ rt_harness!(c01_rt_control_le, Shape { storage: false, htyp: H_EXT_LE, msin: M_C
 rt_harness!(c01_rt_verbose_bool_le, Shape { storage: false, htyp: H_EXT_LE, msin: M_LOG_INFO_V, ids: IDS_FULL, payload: P::Verbose(&[arg(AK::Bool)]) }, 2);
 rt_harness!(c01_rt_nettrace_be, Shape { storage: false, htyp: H_EXT_BE, msin: M_NW_CAN_V, ids: IDS_FULL, payload: P::NetTrace(&[3]) }, 2);
 rt_harness!(c01_rt_verbose_u32_named_be_storage, Shape { storage: true, htyp: H_ALL_BE, msin: M_LOG_INFO_V, ids: IDS_FULL, payload: P::Verbose(&[arg_v(AK::U(4), 2, 1)]) }, 2);
+rt_harness!(c01_rt_nonverbose_nwtrace_type, Shape { storage: false, htyp: H_EXT_LE, msin: M_NW_CAN_NV, ids: IDS_FULL, payload: P::NonVerbose(2) }, 1);
